@@ -301,6 +301,18 @@ func (in *inst) Check(res *mcrt.Result) []explore.Violation {
 		}
 	}
 	if res.Capped {
+		// legitimate executions of these scenarios take a few hundred steps: hitting the cap means a thread
+		// spins (e.g. Set waiting for a slot to be consumed while the consumer is blocked) - producers must
+		// return without waiting, and neither the consumer nor Close may loop forever
+		spinner := "a consumer-side thread"
+		prop := "C12"
+		for pi, d := range in.prodDone {
+			if !d {
+				spinner = fmt.Sprintf("producer %d (its Write has not returned)", pi)
+				prop = "C10"
+			}
+		}
+		add(prop, "", "execution did not finish within the step limit (%d steps): %s spins", res.Steps, spinner)
 		return vs
 	}
 	roomy := total <= p.N
